@@ -60,13 +60,13 @@ theorem ParserAlignedPacket_pack_layout (s : Packet) (h : Packet_WF s) :
   exact Except.ok.inj h1
 
 /-- packet round trip: the same blocks in order (each with its computed count), the same bytes on re-encode;
-    `numberofblocks` is not touched by either direction -/
+    `numberofblocks` is the number of blocks decoded -/
 theorem ParserAlignedPacket_roundtrip (s t : Packet) (h : Packet_WF s) :
     ∃ b, (Packet.pack s).2 = .ok b ∧
-      Packet.unpack t b = ({ parserblocks := s.parserblocks.map norm, numberofblocks := t.numberofblocks }, .ok ()) ∧
+      Packet.unpack t b = ({ parserblocks := s.parserblocks.map norm, numberofblocks := s.parserblocks.length }, .ok ()) ∧
       (Packet.pack (Packet.unpack t b).1).2 = .ok b := by
   refine ⟨s.parserblocks.flatMap blockBytes, by simp only [Packet.pack, packBlocks_eq _ h], ?_, ?_⟩
-  · simp only [Packet.unpack, decBlock_all _ h]
+  · simp only [Packet.unpack, decBlock_all _ h, List.length_map]
   · simp only [Packet.unpack, decBlock_all _ h, Packet.pack]
     rw [packBlocks_eq _ (by
       intro b hb
